@@ -45,6 +45,7 @@ func profileKnobs(profile string) knobs {
 		k.kinds = []int{KUnary, KClientStream}
 		k.pExtraResp, k.pCancel, k.pErr = 0.5, 0.1, 0.3
 		k.pDyn = 0.2
+		k.pUnenc = 0.04 // a response that cannot be encoded is no response
 	case "calg", "calgf":
 		// oracle calibration: the same generator on the reference transport
 		// (grpc-go over simnet); every oracle must accept what it does
